@@ -127,9 +127,9 @@ q["require_probes"] = ["matrix_cases", "probe_requests_meeting_a_fault", "fault_
 t["require_probes"] = q["require_probes"]
 q["require_complete"] = t["require_complete"] = [("matrix_cases", "matrix_total")]
 plan("C06", "fault_enumeration",
-     "(a) single-fault matrix, enumerated completely in both tiers: 29 fault sites (account lookup, permission check, IsUnlocked error, unlock error, no passphrase opens it, "
+     "(a) single-fault matrix, enumerated completely in both tiers: 34 fault sites (account lookup, permission check, IsUnlocked error, unlock error, no passphrase opens it, "
      "really sealed account, account unlocked by the operator through the account manager and locked again on an instance configured with no account passphrases, rules UNKNOWN/FAILED/DENIED, short and empty result list, store read error, store write error, wrong-length record, undecodable record, store closed, "
-     "Sign error, 31- and 33-byte domain, 31-byte data root) x request kind {attest, attest-batch, propose, generic, multisign} x batch size {1,2,3,5,17} x position; "
+     "Sign error, 31- and 33-byte domain, 31-byte data root, an attestation request without target, source, data or id or absent from the list) x request kind {attest, attest-batch, propose, generic, multisign} x batch size {1,2,3,5,17} x position; "
      "(b) seeded multi-fault sequences: 2-6 concurrent requests with store/rules/Sign faults injected at yield points at a drawn rate, pre-drawn lookup/permission/unlock faults, "
      "and the store closed under load (the directory is reopened afterwards: whatever was signed must have its record). distinct = distinct matrix case or distinct faulty schedule; non-trivial = a fault actually fired on a request's path. "
      "Oracle: signature iff SUCCEEDED at every position (handler level); every position whose path met the fault carries no signature; no panic; ledger and signature validity still hold.",
@@ -195,16 +195,19 @@ def all_matrix_layers(runs, budget, mw=16, extra=""):
 q, t = tiers(30, 90, 600, 1200)
 q["layers"] = all_matrix_layers(62, 90, mw=14) + [dict(runs=75, budget_s=90, params="mode=tls"), dict(runs=8, budget_s=90, params="mode=tlsconc")] + native([dict(runs=75, budget_s=90, params="mode=tls"), dict(runs=8, budget_s=90, params="mode=tlsconc")])
 t["layers"] = all_matrix_layers(600, 1200, mw=14) + [dict(runs=75, budget_s=1200, params="mode=tls"), dict(runs=300, budget_s=1200, params="mode=tlsconc")] + native([dict(runs=75, budget_s=1200, params="mode=tls"), dict(runs=300, budget_s=1200, params="mode=tlsconc")])
+q["layers"] += native([dict(runs=10, budget_s=90, params="mode=realnet")])
+t["layers"] += native([dict(runs=300, budget_s=1200, params="mode=realnet")])
 q["require_complete"] = t["require_complete"] = [("matrix_cases", "matrix_total"), ("edge_cases", "edge_total")]
-q["require_probes"] = t["require_probes"] = ["legit_continuations_ok", "share_ownership_checks", "peer_contribution_replies_checked", "ownership_generations", "edge_genuine_peer_served", "edge_non_peer_calls", "edge_concurrent_non_peer_calls", "concurrent_non_peer_messages"]
+q["require_probes"] = t["require_probes"] = ["share_deliveries_checked_over_the_real_sender", "realnet_concurrent_generations_succeeded", "legit_continuations_ok", "share_ownership_checks", "peer_contribution_replies_checked", "ownership_generations", "edge_genuine_peer_served", "edge_non_peer_calls", "edge_concurrent_non_peer_calls", "concurrent_non_peer_messages"]
 plan("C16", "exploration",
      "the table caller identity {a peer, a configured peer that is not a participant of the generation, an ordinary client with all permissions, empty name, unknown name, a peer's name in upper case, a peer's name with a suffix} x message "
      "{prepare, execute, contribute (with a contribution that would verify), commit, abort} x session state at the receiving instance {none, prepared, executed, committed, aborted, "
      "expired (fake clock)} is enumerated completely (360 cases, and 270 more in which a genuine peer earlier opened a generation for another account whose participant list names the non-peer caller; callers also: a peer name as host of a longer domain name, with a trailing dot, a prefix of it, with a port, with a leading space) through the real receiver handlers of a 4-instance cluster (3 participants), a 70-case credential x message table goes over real gRPC/TLS (TLS edge; credentials include certificates the configured authority issued to a client with a peer's name among their alternative names); the remaining runs are seeded fault-free generations with "
      "drawn (n,t) and id sets and (a third) phases of 2-4 messages of different callers in flight at one instance at once under the seeded scheduler. distinct = distinct table case or (n,t,id-class); non-trivial = all. Oracle: a non-peer gets an error and no share, and the legitimate protocol run "
      "continues from that state to a committed account on every participant; every contribution the transport carries (request and reply) has share = originator's vector evaluated "
-     "at the recipient's id and at no other participant's id.",
-     q, t, real_vs_stub=REAL_W2)
+     "at the recipient's id and at no other participant's id. One layer (mode=realnet) runs two waves of 2-4 generations at the same time over Dirk's own sender (services/sender/grpc, its connection pools) "
+     "between real gRPC/TLS edges: every share an instance hands to its sender is remembered with the participant it was computed for and looked up where it arrives.",
+     q, t, real_vs_stub=REAL_W2 + REAL_W8)
 q, t = tiers(200, 60, 10000, 1200)
 q["layers"] = [dict(runs=200, budget_s=60, params="")] * 15 + [dict(runs=12, budget_s=60, params="mode=free")] + native([dict(runs=12, budget_s=60, params="mode=free")]) + native([dict(runs=12, budget_s=60, params="mode=daemon")])
 t["layers"] = [dict(runs=10000, budget_s=1200, params="")] * 15 + [dict(runs=1500, budget_s=1200, params="mode=free")] + native([dict(runs=1500, budget_s=1200, params="mode=free")]) + native([dict(runs=400, budget_s=1200, params="mode=daemon")])
